@@ -190,6 +190,14 @@ def run_property(pid, rules_mod, repo="/repo", tier="quick", configs=None, seed=
                 rep.unk(rid, "-", "engine error: %r\n%s" % (e, traceback.format_exc()[-1500:]))
             if len(rep.results) == n0:
                 rep.unk(rid, "-", "rule produced no instance (vacuous)")
+        if tag == "default" and not getattr(rules_mod, "NO_NDEBUG_RULE", False):
+            from . import ndebug
+            try:
+                ndebug.check(ctx, rep, pid, lambda defs, t: Ctx(repo, tier, tuple(defs), t))
+            except (Broken, AnalysisBroken, mm.Unknown) as e:
+                rep.unk(pid + ".ndebug", "-", str(e))
+            except Exception as e:
+                rep.unk(pid + ".ndebug", "-", "engine error: %r\n%s" % (e, traceback.format_exc()[-1500:]))
         all_results += rep.results
         fn_seen |= rep.fn_seen
         inst_seen += rep.inst_seen
